@@ -55,6 +55,7 @@ type Engine struct {
 	globalsInit   map[string][]*Term
 	recDepth      int
 	debugQ        bool
+	siteOrds      map[*ssa.Function]map[ssa.Instruction]siteInfo
 	lastCuts      []int
 	ghostDecls    map[string]*Sort
 	typeOfTag     map[int]types.Type
@@ -83,6 +84,7 @@ func NewEngine(l *Loaded) *Engine {
 	return &Engine{
 		L: l, contracts: map[string]*FuncContract{}, pures: map[string]*PureFunc{}, pureMeths: map[string]*PureFunc{},
 		lemmas: map[string]*Lemma{}, consts: map[string]*SExpr{}, pkgOfFC: map[*FuncContract]string{},
+		siteOrds: map[*ssa.Function]map[ssa.Instruction]siteInfo{},
 		obligs: map[string]*Oblig{}, loopCache: map[*ssa.Function]*loopInfo{}, snapshots: map[string]*State{},
 		strConsts: map[string]int{}, strByRef: map[string]string{}, typeTags: map[string]int{}, funcRefs: map[*ssa.Function]int{},
 		unmodelled: map[string]bool{}, assumptions: map[string]bool{}, usedTrusted: map[string]bool{}, usedLemmas: map[string]bool{},
@@ -249,6 +251,12 @@ func (E *Engine) contractForMethod(recvT types.Type, m *types.Func) *FuncContrac
 			return fc
 		}
 	}
+	// the interface that declares the method (embedded interfaces)
+	if sig, ok := m.Type().(*types.Signature); ok && sig.Recv() != nil {
+		if dn, ok := sig.Recv().Type().(*types.Named); ok && !types.Identical(dn, recvT) {
+			return E.contractForMethod(dn, m)
+		}
+	}
 	return nil
 }
 
@@ -267,6 +275,14 @@ func (E *Engine) pureMethod(t types.Type, name string) *PureFunc {
 	if n, ok := t.(*types.Named); ok {
 		if pf, ok := E.pureMeths[n.Obj().Name()+"."+name]; ok {
 			return pf
+		}
+		// an interface that embeds others has their abstract state functions
+		if it, ok := n.Underlying().(*types.Interface); ok {
+			for i := 0; i < it.NumEmbeddeds(); i++ {
+				if pf := E.pureMethod(it.EmbeddedType(i), name); pf != nil {
+					return pf
+				}
+			}
 		}
 	}
 	return nil
